@@ -1,25 +1,182 @@
-import AndaVerif.Proofs.CollRel
+import AndaVerif.Proofs.CollFacts
+import AndaVerif.Proofs.CollSched
 /-
-C04 — Unique constraints always hold; a rejected write leaves no trace (first instalment: one
-unique B-tree index under the wrapper's `update`, for every relation, id and value pair).
+C04 — Unique constraints always hold; a rejected write leaves no trace.
+
+Same model as C02 (`AndaVerif.Model.Collection`). The theorems hold after every operation history
+(accepted and rejected operations mixed, rollbacks included); `ObsEq s s'` is equality of everything
+the collection lets a caller observe: documents, ids, the registry, and index by index the postings.
+The concurrent part (`unique_inv_sched`, `no_leak_sched_partial`, `no_leak_sched_counterexample`,
+`at_most_one_winner`) is about
+`AndaVerif.Model.CollSched`: any number of writers, each a program of atomic check-and-insert /
+remove-own-pair actions on the shared unique postings, under every schedule.
 -/
 namespace AndaVerif.Collection
 
-/-- A unique index accepts an update only if no newly taken key is owned by another document. -/
-theorem accepted_update_takes_free_keys (r r' : List (Key × Nat)) (id : Nat) (o n : IVal)
-    (hold : ∀ k, (k, id) ∈ r ↔ k ∈ o.keys) (hc : Compat o n) (h : btUpdate true r id o n = .ok r') :
-    ∀ k ∈ n.keys, k ∉ o.keys → ∀ j, (k, j) ∈ r → j = id := by
-  intro k hk hko
-  exact (conflict_false_iff r id k).1 ((btUpdate_ok true r r' id o n hold hc h).2.2 rfl k hk hko)
+/-- No two ids ever share a key of a unique index (scalar, array or multi-field) — after every
+history, including failing operations and their rollbacks. -/
+theorem unique_inv (schema : List (Nat × FieldDef)) (ops : List Op) (x : BtDef × List (Key × Nat))
+    (hx : x ∈ (run (init schema) ops).ix.bt) (hu : x.1.unique = true) (k : Key) (i j : Nat)
+    (hi : (k, i) ∈ x.2) (hj : (k, j) ∈ x.2) : i = j :=
+  ((inv_run _ ops (inv_init schema)).bt x hx).2 hu k i j hi hj
 
-/-- A refused update names a key that another document owns; the relation is not returned changed
-(the `Except.error` carries no relation: the caller keeps the old one). -/
-theorem refused_update_has_a_holder (u : Bool) (r : List (Key × Nat)) (id : Nat) (o n : IVal) (e : Err)
-    (hc : Compat o n) (h : btUpdate u r id o n = .error e) :
-    u = true ∧ ∃ k ∈ n.keys, ∃ j, (k, j) ∈ r ∧ j ≠ id := by
-  obtain ⟨_, hu, k, hk, hcf⟩ := btUpdate_err u r id o n e hc h
-  exact ⟨hu, k, hk, (conflict_iff r id k).1 hcf⟩
+/-- The same at the level of documents: no two live documents share the value of a unique field,
+an element of a unique array field, or the value tuple of a multi-field index. -/
+theorem unique_among_live_docs (schema : List (Nat × FieldDef)) (ops : List Op) (x : BtDef × List (Key × Nat))
+    (hx : x ∈ (run (init schema) ops).ix.bt) (hu : x.1.unique = true) (k : Key) (i j : Nat)
+    (di dj : List (Nat × FVal))
+    (h1 : lookupD (run (init schema) ops).docs i = some di) (h2 : lookupD (run (init schema) ops).docs j = some dj)
+    (k1 : k ∈ (valueOf x.1 di).keys) (k2 : k ∈ (valueOf x.1 dj).keys) : i = j :=
+  live_docs_unique _ (inv_run _ ops (inv_init schema)) x hx hu k i j di dj h1 h2 k1 k2
 
-example : btUpdate true [(.s 1, 7), (.s 2, 8)] 7 (.one (.s 1)) (.one (.s 2)) = .error .exists := by rfl
+/-- A multi-field index is always unique (it is created `with_unique()`), so the two theorems above
+apply to it: no two live documents share a value tuple. -/
+theorem multi_field_index_is_unique (s : State) (name : Nat) (fields : List Nat) (h : fields.length ≥ 2)
+    (x : BtDef × List (Key × Nat)) (hx : x ∈ (createBt s name fields).1.ix.bt) (hn : x ∉ s.ix.bt) :
+    x.1.unique = true := by
+  rcases createBt_new_index s name fields x hx with h1 | ⟨_, _, h3⟩
+  · exact absurd h1 hn
+  · rw [h3]
+    have : (fields.length == 1) = false := by
+      cases hl : fields.length == 1 with
+      | false => rfl
+      | true => simp at hl; omega
+    simp [this]
+
+/-- A rejected operation (schema violation, uniqueness conflict, unknown field, missing document,
+wrong vector dimension, refused index creation) changes nothing observable: same documents, same
+ids, same registry, and every index holds the same postings — whichever indexes had already been
+changed when the failure was detected. -/
+theorem rejected_is_noop (schema : List (Nat × FieldDef)) (ops : List Op) (op : Op) (e : Err)
+    (h : (step (run (init schema) ops) op).2 = .err e) :
+    ObsEq (run (init schema) ops) (step (run (init schema) ops) op).1 :=
+  let hi := inv_run _ ops (inv_init schema)
+  obsEq_of_inv _ _ hi (inv_step _ op hi) (rejected_frame _ op hi e h)
+
+/-- …and from any state that satisfies the invariant (e.g. a recovered one, C01). -/
+theorem rejected_is_noop_from (s : State) (hi : Inv s) (op : Op) (e : Err) (h : (step s op).2 = .err e) :
+    ObsEq s (step s op).1 :=
+  obsEq_of_inv _ _ hi (inv_step _ op hi) (rejected_frame _ op hi e h)
+
+/-- A rejected contender does not remove (or move) the holder's posting. -/
+theorem holder_keeps_value (schema : List (Nat × FieldDef)) (ops : List Op) (op : Op) (e : Err)
+    (h : (step (run (init schema) ops) op).2 = .err e)
+    (x : BtDef × List (Key × Nat)) (hx : x ∈ (run (init schema) ops).ix.bt) (k : Key) (holder : Nat)
+    (hk : (k, holder) ∈ x.2) :
+    ∀ x' ∈ (step (run (init schema) ops) op).1.ix.bt, x'.1 = x.1 → (k, holder) ∈ x'.2 :=
+  fun x' hx' hd => ((rejected_is_noop schema ops op e h).bt x hx x' hx' hd (k, holder)).2 hk
+
+/-- A uniqueness rejection always has a *live* holder: some live document currently holds one of
+the contested keys in a unique index. Hence a value stops blocking the moment its holder is removed
+or changes it (the holder's document then no longer has the key — see `value_released`). -/
+theorem conflict_has_live_holder (schema : List (Nat × FieldDef)) (ops : List Op) (d : List (Nat × FVal))
+    (h : (add (run (init schema) ops) d).2 = .err .exists) :
+    ∃ x ∈ (run (init schema) ops).ix.bt, x.1.unique = true ∧ ∃ k ∈ (valueOf x.1 d).keys, ∃ j dj,
+      lookupD (run (init schema) ops).docs j = some dj ∧ k ∈ (valueOf x.1 dj).keys :=
+  add_exists_has_live_holder _ (inv_run _ ops (inv_init schema)) d h
+
+/-- The contested value becomes available again: a valid document none of whose unique keys is held
+by a live document (and whose vector fits) is accepted — no matter which rejected or rolled-back
+operations, removals or updates came before. -/
+theorem value_released (schema : List (Nat × FieldDef)) (ops : List Op) (d : List (Nat × FVal))
+    (hv : validate schema d = true)
+    (hfree : ∀ x ∈ (run (init schema) ops).ix.bt, x.1.unique = true → ∀ k ∈ (valueOf x.1 d).keys, ∀ j dj,
+      lookupD (run (init schema) ops).docs j = some dj → k ∉ (valueOf x.1 dj).keys)
+    (hdim : ∀ h ∈ (run (init schema) ops).ix.hn, ∀ n, vecOf h.field d = some n → n = h.dim) :
+    ∃ id, (add (run (init schema) ops) d).2 = .id id := by
+  have hs : (run (init schema) ops).schema = schema := run_schema _ ops
+  exact ⟨_, add_accepted_when_free _ (inv_run _ ops (inv_init schema)) d (by rw [hs]; exact hv) hfree hdim⟩
+
+-- ------------------------------------------------------------------------------------------
+-- concurrent writers
+-- ------------------------------------------------------------------------------------------
+
+/-- Under every schedule of any number of writers, no value of a unique index is ever owned by two
+ids — in every intermediate configuration (every prefix of a schedule is a schedule). -/
+theorem unique_inv_sched (r : List ((Nat × Key) × Nat)) (ws : List Writer) (sched : List Nat) (h : UniqueG r) :
+    UniqueG (runSchedule r ws sched).1 :=
+  runSchedule_unique r ws sched h
+
+/-- The full statement: whatever the writers' programs (early releases included), a writer that ends
+rejected owns exactly what it held before. It is **false** of today's `update_impl`
+(`no_leak_sched_counterexample`, finding F-C04-1) and true of every writer that releases its old
+values only after its last insert (`no_leak_sched_partial`). -/
+def no_leak_sched_full : Prop := NoLeakFull
+
+/-- No leak, no early release — for writers that release old values only after their last insert
+(`CInv`: every `add`, and every `update` that touches one unique index; it is also what
+`update_impl` would be after the fix proposed in notes/C04.md): under every schedule, a writer that
+ended rejected owns exactly what it held before (its rollback removed everything it had inserted and
+nothing else), and a writer that ended accepted owns exactly its old values minus the released ones
+plus every key of its program. Identity / old values / program of each writer are those it started
+with. -/
+theorem no_leak_sched_partial (r : List ((Nat × Key) × Nat)) (ws : List Writer) (sched : List Nat) (h : CInv r ws) :
+    (runSchedule r ws sched).2.map (fun w => (w.id, w.held, w.prog0, w.drop0)) =
+      ws.map (fun w => (w.id, w.held, w.prog0, w.drop0)) ∧
+    ∀ w ∈ (runSchedule r ws sched).2,
+      (w.mode = .rejected → ∀ g, (g, w.id) ∈ (runSchedule r ws sched).1 ↔ g ∈ w.held) ∧
+      (w.mode = .accepted → ∀ g, (g, w.id) ∈ (runSchedule r ws sched).1 ↔
+        (g ∈ w.held ∧ g ∉ w.drop0) ∨ g ∈ insKeys w.prog0) := by
+  have hc := runSchedule_cinv r ws sched h
+  exact ⟨runSchedule_ids r ws sched, fun w hw => finished_owns _ w (hc.2 w hw).1 (hc.2 w hw).2⟩
+
+/-- F-C04-1. `update_impl` runs `BTree::update = insert(new)?; remove(old)` index by index, so the
+old value of an earlier unique index is free while a later unique index is still deciding. Witness
+(`cxRel`, `cxWriters`, `cxSched`): doc 1 holds u = 5, e = 0 and doc 2 holds u = 9, e = 1; A =
+`update(1, {u: 6, e: 1})`, B = `add {u: 5}`. A inserts u = 6, releases u = 5; B takes u = 5 and is
+accepted; A is refused on e = 1 and its rollback can not re-take u = 5: A ends rejected and
+poisoned, owning u = 6, while its document (unchanged, u = 5) and B's document both carry u = 5.
+Replayed on the real code with two tokio tasks (harness c04, `race.rs`). -/
+theorem no_leak_sched_counterexample : ¬ no_leak_sched_full := noLeakFull_false
+
+/-- the witness, evaluated -/
+example : (runSchedule cxRel cxWriters cxSched).1 =
+    [((1, .s 0), 1), ((0, .s 9), 2), ((1, .s 1), 2), ((0, .s 6), 1), ((0, .s 5), 53)] := cx_outcome.1
+
+/-- Of the writers contending for one value at most one is accepted, whatever the schedule. -/
+theorem at_most_one_winner (r : List ((Nat × Key) × Nat)) (ws : List Writer) (sched : List Nat)
+    (hu : UniqueG r) (hc : CInv r ws) (w1 w2 : Writer)
+    (h1 : w1 ∈ (runSchedule r ws sched).2) (h2 : w2 ∈ (runSchedule r ws sched).2)
+    (a1 : w1.mode = .accepted) (a2 : w2.mode = .accepted) (g : Nat × Key)
+    (g1 : g ∈ insKeys w1.prog0) (g2 : g ∈ insKeys w2.prog0) : w1.id = w2.id :=
+  winners_distinct _ _ (runSchedule_unique r ws sched hu) (runSchedule_cinv r ws sched hc) w1 w2 h1 h2 a1 a2 g g1 g2
+
+/-- the hypotheses are met by any set of `add` writers with distinct fresh ids -/
+example : CInv [((0, .s 9), 1)] ([(7, [(0, Key.s 5), (1, Key.s 1)]), (8, [(0, Key.s 6), (1, Key.s 1)])].map
+    (fun p => adder p.1 p.2)) :=
+  adders_cinv _ _ (by decide) (by decide) (by
+    intro p hp g hg
+    simp only [List.mem_cons, List.not_mem_nil, or_false, Prod.mk.injEq] at hp hg
+    rcases hp with rfl | rfl <;> simp at hg)
+
+-- ------------------------------------------------------------------------------------------
+-- Non-vacuity
+-- ------------------------------------------------------------------------------------------
+
+def c4Schema : List (Nat × FieldDef) :=
+  [(1, { kind := .int, opt := false, unique := true }), (2, { kind := .arr, opt := false, unique := true }),
+   (3, { kind := .int, opt := true, unique := false })]
+
+def c4Ops : List Op :=
+  [.createBt 0 [1], .createBt 1 [2], .createBt 2 [1, 3],
+   .add [(1, .int 5), (2, .arr [1, 2]), (3, .null)]]
+
+/-- a contender that passes the first unique index and fails on the second is rejected … -/
+example : (step (run (init c4Schema) c4Ops) (.add [(1, .int 6), (2, .arr [2, 3]), (3, .null)])).2 = .err .exists := by rfl
+/-- … leaves the postings as they were … -/
+example : (step (run (init c4Schema) c4Ops) (.add [(1, .int 6), (2, .arr [2, 3]), (3, .null)])).1.ix.bt.map (fun x => x.2) =
+    (run (init c4Schema) c4Ops).ix.bt.map (fun x => x.2) := by rfl
+/-- … and once the holder is removed the same document is accepted. -/
+example : (step (step (run (init c4Schema) c4Ops) (.remove 1)).1 (.add [(1, .int 6), (2, .arr [2, 3]), (3, .null)])).2 = .id 2 := by rfl
+example : (step (run (init c4Schema) c4Ops) (.update 1 [(9, .int 1)])).2 = .err .invalid := by rfl
+
+/-- two adders that differ on the first unique index and collide on the second, interleaved so that
+both pass their pre-checks and both insert into the first index before either reaches the second:
+writer 0 wins, writer 1 is rejected and its rollback frees value 6 of the first index again -/
+example : ((runSchedule [] [adder 7 [(0, .s 5), (1, .s 1)], adder 8 [(0, .s 6), (1, .s 1)]]
+    [0, 1, 0, 1, 0, 1, 0, 1, 0, 1, 1, 0]).1,
+    (runSchedule [] [adder 7 [(0, .s 5), (1, .s 1)], adder 8 [(0, .s 6), (1, .s 1)]]
+    [0, 1, 0, 1, 0, 1, 0, 1, 0, 1, 1, 0]).2.map (fun w => w.mode)) =
+    ([((0, .s 5), 7), ((1, .s 1), 7)], [.accepted, .rejected]) := by rfl
 
 end AndaVerif.Collection
